@@ -57,6 +57,9 @@ func (c *Config) VerifyConfig(schema base.LogSchema) error {
 	if c.MaxLength <= 0 {
 		return fmt.Errorf(".maxLength must larger than zero: %d", c.MaxLength)
 	}
+	if _, err := newStringExtractorSimple(c.getPosition(), c.Pattern, c.MaxLength); err != nil {
+		return fmt.Errorf(".pattern is invalid: %w", err)
+	}
 	if len(c.DestKey) == 0 {
 		return fmt.Errorf(".destKey is unspecified")
 	}
